@@ -348,9 +348,19 @@ func c18Words(c *Ctx) {
 	}
 	// matchAuth: true only over an equality of an element of s.Authentication with the needle
 	ma := c.Fn("cmd/rdpgw/config", "ServerConfig.matchAuth")
+	isAuthList := func(v ssa.Value) bool {
+		_, f, ok := fieldLoad(strip(v))
+		return ok && f.Name() == "Authentication"
+	}
+	isNeedle := func(v ssa.Value) bool { return strip(v) == ssa.Value(ma.Params[1]) }
 	for i, r := range returnsOf(ma) {
+		// the membership test handed on as is: return slices.Contains(s.Authentication, needle)
+		if call, ok := strip(r.Results[0]).(*ssa.Call); ok && isSlicesContains(call) {
+			c.Check(isAuthList(call.Call.Args[0]) && isNeedle(call.Call.Args[1]), rule, fmt.Sprintf("matchAuth true#%d", i), r.Pos(), "slices.Contains(Authentication, needle)", "matchAuth does not test membership of the needle in s.Authentication")
+			continue
+		}
 		if b, ok := constBool(r.Results[0]); ok && b {
-			g := GEq(func(v ssa.Value) bool {
+			g := GOr(GContains(isAuthList, isNeedle), GEq(func(v ssa.Value) bool {
 				a, ok := loadAddr(strip(v))
 				if !ok {
 					return false
@@ -361,7 +371,7 @@ func c18Words(c *Ctx) {
 				}
 				_, f, ok := fieldLoad(strip(ia.X))
 				return ok && f.Name() == "Authentication"
-			}, func(v ssa.Value) bool { return strip(v) == ssa.Value(ma.Params[1]) })
+			}, func(v ssa.Value) bool { return strip(v) == ssa.Value(ma.Params[1]) }))
 			okp, why := mustPass(ma, r, g)
 			c.Check(okp, rule, fmt.Sprintf("matchAuth true#%d", i), r.Pos(), "true only over Authentication[i] == needle", "matchAuth returns true "+why)
 		}
